@@ -318,12 +318,25 @@ def optfree(ctx, rep, tab):
                 elif d < 2 and call_base(n).startswith("draco::Mesh") and "Encoder" in call_base(n):
                     for t in F.targets(n):
                         todo.append((t, d + 1))
+        # the face count is a property of the connectivity the encoder codes (its corner table / the mesh's
+        # face count), never a second opinion formed from attribute values of the input faces
+        if fn.base.rsplit("::", 1)[-1] == "ComputeNumberOfEncodedFaces":
+            for f_key in list(seen):
+                f = F.fns.get(f_key)
+                if f is None:
+                    continue
+                for n, b, rk, ev in f.calls():
+                    if call_base(n) in ("draco::Mesh::face", "draco::PointAttribute::mapped_index",
+                                        "draco::GeometryAttribute::GetValue", "draco::PointAttribute::GetMappedValue") \
+                            and b in f.reach_all():
+                        hits.append("%s at %s (face count re-derived from the input geometry)" % (
+                            call_base(n).replace("draco::", ""), f.site(n.get("loc", ""))))
         if not is_ctl:
             n_fn += 1
         fired |= is_ctl and bool(hits)
         rep.add(Obligation("OPTFREE", fn.base, "count computation reads no options", fn.loc,
                            VIOLATION if hits else DISCHARGED,
-                           detail="re-derives an encoder decision from the options: %s" % hits[:3] if hits else
+                           detail="re-derives what was encoded instead of reading it off the encoder's state: %s" % hits[:3] if hits else
                            "derived from the geometry and the encoder's state (%d functions inspected)" % len(seen),
                            control=is_ctl))
     rep.floor("count-computing overriders inspected by OPTFREE", n_fn, 5)
